@@ -41,6 +41,36 @@ CHECKS = [
          note="Trusted: TLC, refinement map; damage is applied at rest and read through a fresh cafs instance. The bundle "
               "download path is covered by the bundle checks",
          technique="TLC-enumerated fault cases with specification-derived oracles, replayed on pkg/cafs"),
+    dict(id="C04",
+         text='Meta.tla (repos, bundles as index files + descriptor, labels; API operations as actions, results as operators) is model-checked exhaustively for small constants; TLC-generated histories of uploads (trees, explicit key lists), selective downloads and diffs are replayed on pkg/core; after every step the real stores are projected and compared with the specification, and every visible bundle is downloaded and compared byte for byte',
+         design_ref="§3 C04",
+         note='Trusted: TLC, the projection (real store -> abstract state), the in-memory object store (checked against ObjectStore.tla), harness-chosen KSUIDs. Bounds: 3 prefix-related repos, 7 paths incl. generated decoys, 4 contents, <= 5-7 bundles, histories of 12-14 steps (random walks); 1000/1001-file bundles in a separate small run',
+         technique='TLA+ model checking (TLC) of Meta.tla + replay of TLC-generated API behaviours on pkg/core with state projection compare'),
+    dict(id="C05",
+         text='TLC-generated histories of uploads over a shared path pool followed by diff and in-place update; diff compared with Meta!DiffOp, the updated directory compared with a fresh download of the target (files and metadata)',
+         design_ref="§3 C05",
+         note='Trusted: TLC, the projection (real store -> abstract state), the in-memory object store (checked against ObjectStore.tla), harness-chosen KSUIDs. Bounds: 3 prefix-related repos, 7 paths incl. generated decoys, 4 contents, <= 5-7 bundles, histories of 12-14 steps (random walks); 1000/1001-file bundles in a separate small run',
+         technique='TLA+ model checking (TLC) of Meta.tla + replay of TLC-generated API behaviours on pkg/core with state projection compare'),
+    dict(id="C06",
+         text='Meta.tla with interrupted uploads (VisibleComplete, CommittedImmutable checked exhaustively by TLC); TLC-generated histories in which uploads crash before/after each metadata write are replayed with the crash wrapper; after every step listing, latest, labels, entries and the full store projection are compared with the specification',
+         design_ref="§3 C06",
+         note='Trusted: TLC, the projection (real store -> abstract state), the in-memory object store (checked against ObjectStore.tla), harness-chosen KSUIDs. Bounds: 3 prefix-related repos, 7 paths incl. generated decoys, 4 contents, <= 5-7 bundles, histories of 12-14 steps (random walks); 1000/1001-file bundles in a separate small run. Crash = fail-stop of one client with atomic single-object writes',
+         technique='TLA+ model checking (TLC) of Meta.tla + replay of TLC-generated API behaviours on pkg/core with state projection compare'),
+    dict(id="C08",
+         text='TLC-generated label histories (set, overwrite, delete, bundle delete, repo delete/rename) over prefix-related repositories replayed on pkg/core; get/list of every label after every step compared with Meta!GetLabelOp/ListLabelsOp; full projection shows that a label set changes nothing else',
+         design_ref="§3 C08",
+         note='Trusted: TLC, the projection (real store -> abstract state), the in-memory object store (checked against ObjectStore.tla), harness-chosen KSUIDs. Bounds: 3 prefix-related repos, 7 paths incl. generated decoys, 4 contents, <= 5-7 bundles, histories of 12-14 steps (random walks); 1000/1001-file bundles in a separate small run',
+         technique='TLA+ model checking (TLC) of Meta.tla + replay of TLC-generated API behaviours on pkg/core with state projection compare'),
+    dict(id="C09",
+         text='TLC-generated histories with delete-repo, rename-repo and delete-files over prefix-related repositories sharing content; the complete projection of both metadata stores is compared with the specification after every step (frame conditions also model-checked: AtMostTwoReposTouched)',
+         design_ref="§3 C09",
+         note='Trusted: TLC, the projection (real store -> abstract state), the in-memory object store (checked against ObjectStore.tla), harness-chosen KSUIDs. Bounds: 3 prefix-related repos, 7 paths incl. generated decoys, 4 contents, <= 5-7 bundles, histories of 12-14 steps (random walks); 1000/1001-file bundles in a separate small run. Concurrent creators of one repository: ObjectStore exclusive put (C16) + CreateRepo result compare; the gate-scheduled variant is planned',
+         technique='TLA+ model checking (TLC) of Meta.tla + replay of TLC-generated API behaviours on pkg/core with state projection compare'),
+    dict(id="C10",
+         text='Meta!KeepSet (model-checked: SquashKeepsLatest) against RepoSquash on TLC-generated histories with leftovers of uploads interrupted at every metadata write, semver / non-semver labels, retain-N 1..3 and every retain-tags mode; kept bundles downloaded',
+         design_ref="§3 C10",
+         note='Trusted: TLC, the projection (real store -> abstract state), the in-memory object store (checked against ObjectStore.tla), harness-chosen KSUIDs. Bounds: 3 prefix-related repos, 7 paths incl. generated decoys, 4 contents, <= 5-7 bundles, histories of 12-14 steps (random walks); 1000/1001-file bundles in a separate small run',
+         technique='TLA+ model checking (TLC) of Meta.tla + replay of TLC-generated API behaviours on pkg/core with state projection compare'),
     dict(id="C16",
          text="ObjectStore.tla is model-checked exhaustively over a hostile key set (pagination = one-page listing, sorted, "
               "duplicate free, exclusive winner); TLC-generated operation histories are replayed on the real localfs store with "
